@@ -46,3 +46,9 @@ Theorem C15_window_instance :
   last (run_live [16;0;0;0;2]%N window_schedule) [] = [1;4;0;0;0;4]%N.
 Proof. exact ProofsExamples.no_lost_wakeup_window_instance. Qed.
 Print Assumptions C15_window_instance.
+
+(* read off the source (tie T1): every store of a ring cursor is followed, unconditionally and in the same block, by the
+   broadcast on the condition variable the other side waits on - the step structure Ring/Live.v gives the calls *)
+Theorem C15_cursor_stores_broadcast : Gen.Tables.cursor_stores_broadcast = true.
+Proof. reflexivity. Qed.
+Print Assumptions C15_cursor_stores_broadcast.
